@@ -708,4 +708,72 @@ example : (∀ r ∈ [(3, 4)], 1 < r.1) ∧
     isLineNonFormatted (unwrapCodeBlock 1 [(3, 4)]) 2 = true ∧ isLineNonFormatted [(3, 4)] 3 = true := by
   decide
 
+/-! ## `format_code_block`: the `fn main() {` wrapper around a statement-shaped body -/
+
+/-- What the wrapper does to one line and what the un-indenting loop does to the result when the
+formatter copied the line as it is (a line of a skipped node): the line comes back, for every line
+when empty lines are left empty, and for every non-empty line otherwise.  `tabSpaces ≥ 1`; the line
+with its indentation fits `max_width`. -/
+theorem code_block_line_roundtrip (hardTabs : Bool) (tabSpaces maxWidth : Nat) (skipEmpty : Bool)
+    (l : List Char) (ht : 1 ≤ tabSpaces) (hw : l.length + tabSpaces ≤ maxWidth)
+    (hl : skipEmpty = true ∨ l ≠ []) :
+    let ind := levelIndent hardTabs tabSpaces
+    let offset := if hardTabs then 1 else tabSpaces
+    unwrapLine ind offset maxWidth true ((if (!skipEmpty || !l.isEmpty) then ind else []) ++ l) =
+      some l := by
+  intro ind offset
+  have hind : ind.length = offset := by
+    simp only [ind, offset, levelIndent]
+    split <;> simp
+  have hoff : offset ≤ tabSpaces := by
+    simp only [offset]; split <;> omega
+  by_cases he : l = []
+  · subst he
+    rcases hl with h | h
+    · subst h
+      simp [unwrapLine]
+    · exact absurd rfl h
+  · have hne : l.isEmpty = false := by simpa using he
+    have hpos : 0 < l.length := List.length_pos_iff.2 he
+    simp only [hne, Bool.not_false, Bool.or_true, if_true]
+    unfold unwrapLine
+    have h1 : ¬ (ind ++ l).length > maxWidth := by
+      simp only [List.length_append]; omega
+    have h2 : (ind ++ l).length > ind.length := by
+      simp only [List.length_append]; omega
+    have h3 : ind.isPrefixOf (ind ++ l) = true := by
+      simp
+    simp only [Bool.not_true, Bool.false_eq_true, if_false, h1, h2, h3, if_true]
+    rw [← hind, List.drop_left]
+
+/-- The wrapper of the current source leaves empty lines empty (generated from lib.rs), so every
+line of a verbatim copy survives the wrapping and unwrapping. -/
+theorem code_block_roundtrip_current (hardTabs : Bool) (tabSpaces maxWidth : Nat) (l : List Char)
+    (ht : 1 ≤ tabSpaces) (hw : l.length + tabSpaces ≤ maxWidth) :
+    RF.Gen.SkipSites.encloseSkipsEmptyLines = true ∧
+    unwrapLine (levelIndent hardTabs tabSpaces) (if hardTabs then 1 else tabSpaces) maxWidth true
+      ((if (!RF.Gen.SkipSites.encloseSkipsEmptyLines || !l.isEmpty)
+          then levelIndent hardTabs tabSpaces else []) ++ l) = some l :=
+  ⟨by decide, code_block_line_roundtrip hardTabs tabSpaces maxWidth
+    RF.Gen.SkipSites.encloseSkipsEmptyLines l ht hw (Or.inl (by decide))⟩
+
+example : (1 : Nat) ≤ 4 ∧ ("  x".toList.length + 4 ≤ 100) := by decide
+
+/-- Before /repo 22cb75b the wrapper indented empty lines too: an empty line inside a skipped node
+came back as a line of `tab_spaces` blanks (the un-indenting loop only strips lines LONGER than the
+indentation). -/
+theorem code_block_blank_line_counterexample :
+    unwrapLine (levelIndent false 4) 4 100 true
+      ((if (!false || !([] : List Char).isEmpty) then levelIndent false 4 else []) ++ []) =
+      some "    ".toList ∧
+    unwrapLines (levelIndent false 4) 4 100 ⟨false, false⟩ true
+      (lineClasses (((encloseInMainBlock (levelIndent false 4) ⟨false, false⟩ false
+        "struct S {\n\n}".toList).drop fnMainPrefix.length).dropLast.dropLast)) =
+      some ["struct S {".toList, "    ".toList, "}".toList] ∧
+    unwrapLines (levelIndent false 4) 4 100 ⟨false, false⟩ true
+      (lineClasses (((encloseInMainBlock (levelIndent false 4) ⟨false, false⟩ true
+        "struct S {\n\n}".toList).drop fnMainPrefix.length).dropLast.dropLast)) =
+      some ["struct S {".toList, [], "}".toList] := by
+  decide
+
 end RF.Props.C04
